@@ -673,5 +673,28 @@ def run_variant(C, base_ops, rng, tid=0, lazy=False, k=4):
                 var.step(x)
                 vops.append(x)
     bt_ = {"tid": tid, "C": C, "events": base.events, "ops": list(base_ops[:n])}
-    vt = {"tid": tid + 1, "C": C, "events": var.events, "ops": vops, "variant_of": tid}
+    vt = {"tid": tid + 1, "C": C, "events": var.events, "ops": vops, "variant_of": tid, "base_ops": list(base_ops[:n])}
     return bt_, vt
+
+
+def run_variant_fixed(C, base_ops, vops, tid=0, lazy=False):
+    """Replay of a recorded pair: vops is base_ops with redundant refreshes inserted."""
+    base = Recorder(C, lazy=lazy)
+    for op in base_ops:
+        ev = base.step(op)
+        if ev["exc"] != "none" or ev["bankrupt"]:
+            break
+    var = Recorder(C, lazy=lazy)
+    j = 0
+    for op in vops:
+        ev = var.step(op)
+        if j < len(base_ops) and op == base_ops[j]:
+            b = base.raws.get(j)
+            v = var.raws.get(len(var.events) - 1)
+            if b is not None and v is not None and "val" in b and "val" in v:
+                ev["eqbase"] = _same(b, v)
+            j += 1
+        if ev["exc"] != "none" or ev["bankrupt"]:
+            break
+    return ({"tid": tid, "C": C, "events": base.events, "ops": list(base_ops)},
+            {"tid": tid + 1, "C": C, "events": var.events, "ops": list(vops), "variant_of": tid})
